@@ -378,6 +378,7 @@ typedef struct {
     int pathlen;                         /* -1 none (roots) */
     X509 *sig_donor_anchor, *sig_donor_parent, *sig_donor_sibling;
     EVP_PKEY *wrong_key, *weak_key;
+    int old_no_ku;                       /* CA without keyUsage whose notBefore lies in 1995 (before X.509v3) */
 } cspec_t;
 
 static X509 *build_cert(const cspec_t *c, unsigned char **der_out, int *derlen_out)
@@ -422,6 +423,10 @@ static X509 *build_cert(const cspec_t *c, unsigned char **der_out, int *derlen_o
         nb = (time_t) (MXV_T0 + 2 * 86400);
         na = (time_t) (MXV_T0 + 400 * 86400);
     }
+    if (c->old_no_ku)
+    {
+        nb = (time_t) 789004800;   /* 1995-01-02 */
+    }
     ASN1_TIME_set(X509_getm_notBefore(x), nb);
     ASN1_TIME_set(X509_getm_notAfter(x), na);
     X509_set_pubkey(x, skey);
@@ -447,7 +452,7 @@ static X509 *build_cert(const cspec_t *c, unsigned char **der_out, int *derlen_o
             {
                 add_ext_conf(x, NID_key_usage, "critical,digitalSignature,cRLSign");
             }
-            else if (kind != K_KU_ABSENT)
+            else if (kind != K_KU_ABSENT && !c->old_no_ku)
             {
                 add_ext_conf(x, NID_key_usage, "critical,digitalSignature,keyCertSign,cRLSign");
             }
